@@ -223,7 +223,7 @@ func check(id int) {
 		// the enclosing function is the one the statement was written in
 		_ = w
 		oks++
-	} else if !strings.Contains(name, ".func") && name != "main" && name != "Main" {
+	} else if !strings.Contains(name, ".func") && name != "main" && name != "VerifProgMain__" {
 		printf "MISMATCH enclosing-function: statement %d runs in %s, which is not a function of the source\n", id, name
 	}
 }
